@@ -137,7 +137,7 @@ def theta_records(tier):
 
 def omega_records(tier):
     """list of lists of $OMEGA records"""
-    diag = ["0.1", "0.1 0.2", "0.1 FIX", "(0.1 FIX) 0.2", "0.3 SD", "(0.3 SD)", "DIAGONAL(2) 0.1 0.2", "(0.1)x2", "0.1 ; IIV_CL\n 0.2 ; IIV_V"]
+    diag = ["0.1", "0.1 0.2", "0.1 FIX", "(0.1 FIX) 0.2", "0.3 SD", "(0.3 SD)", "DIAGONAL(2) 0.1 0.2", "(0.1)x2", "0.1 ; IIV_CL\n 0.2 ; IIV_V", "(0.1)x2 0.3", "0.3 (0.1)x2 0.4"]
     blocks = ["BLOCK(1) 0.1", "BLOCK(2) 0.1 0.01 0.2", "BLOCK(2) 0.1\n 0.01 0.2", "BLOCK(2) FIX 0.1 0.01 0.2", "BLOCK(2) 0.1 0.01 0.2 FIX",
               "BLOCK(2) SD 0.3 0.01 0.4", "BLOCK(2) CORRELATION 0.1 0.5 0.2", "BLOCK(2) SD CORRELATION 0.3 0.5 0.4",
               "BLOCK(2) CHOLESKY 0.3 0.1 0.4", "BLOCK(3) 0.1 0.01 0.2 0.02 0.03 0.3", "BLOCK(2) VALUES(0.1,0.01)",
